@@ -92,6 +92,13 @@ impl TargetWatcher {
                     })
                     .collect::<Vec<_>>();
 
+                #[cfg(zinoma_verif)]
+                crate::verif::emit(
+                    "watch_event",
+                    &target_id.to_string(),
+                    &[("relevant", (!relevant_files.is_empty()).to_string())],
+                );
+
                 if !relevant_files.is_empty() {
                     let target_id = target_id.clone();
                     log::trace!(
